@@ -44,7 +44,8 @@ PROP = {
             "CommandProcessor and a Router: 1..32 concurrent SendWithReplies / SendWithReply callers on a shared reply topic or per-operation "
             "topics; handler scripts {result, error, unmarshalable result, panic, failing reply publish} with redelivery after Nack (several "
             "replies); AckCommandErrors on/off; no / 15-45 ms / 1 h ListenForReplyTimeout; callers {drain, read one then stop, never read, end "
-            "the context before any reply, SendWithReply, parent context cancelled}; foreign notifications injected; the listener parked at "
+            "the context before any reply, SendWithReply, parent context cancelled, SendWithReplies failing to send}; foreign notifications "
+            "injected; the reply Pub/Sub closed while contexts are alive (subscriber-closed path); the listener parked at "
             "requestreply.listen.before_send with a full reply channel, the context cancelled, then released (D12 interleaving); seeded yield "
             "injection. Per request the recorded stream must be a trace of the Lean listener model (subset construction); the whole trace must "
             "satisfy the property monitor (own replies only, result and error text of an own handler invocation, settlement per "
